@@ -262,6 +262,7 @@ static int run_step(const mc_harness *h, int e)
         const char *s = w_safety(h->max_frames ? h->max_frames : 140);
         if (s) { char o[400]; w_fmt_obs(o, sizeof o); mc_fail(s, "safety monitor: %s; %s", s, o); }
     }
+    if (failed && mc_opt("safety_only", 0) && strncmp(fail_sig, "safety:", 7) != 0) failed = 0;   /* C01 runs: only the safety monitor judges */
     return failed ? MC_VIOL : MC_OK;
 }
 
@@ -367,6 +368,7 @@ int mc_main(int argc, char **argv, const mc_harness *h)
                     failed = 0; fail_sig[0] = 0; fail_diag[0] = 0; in_step = 1;
                     h->probe();
                     in_step = 0; progress++; probes++;
+                    if (failed && mc_opt("safety_only", 0) && strncmp(fail_sig, "safety:", 7) != 0) failed = 0;
                     if (failed) record_violation(fail_sig, fail_diag);
                 }
             }
@@ -426,6 +428,7 @@ void mc_case_end(uint64_t outcome, int nontrivial, const char *sample)
     in_step = 0; progress++;
     en_cases++;
     if (nontrivial) en_nontrivial++;
+    if (failed && mc_opt("safety_only", 0) && strncmp(fail_sig, "safety:", 7) != 0) failed = 0;
     outcome_add(outcome ^ ((uint64_t)failed << 63));
     if (failed) record_violation(fail_sig, fail_diag);
     if (sample && en_nsamples < 4 && (en_cases == 1 || (en_cases % 9973) == 0 || failed)) snprintf(en_samples[en_nsamples++], 400, "%s", sample);
